@@ -742,7 +742,10 @@ func (t *Tree) Compile(file string, args []string, out io.Writer) (err error) {
 				lower := []rune(element.String())[0]
 				element = element.Next()
 				upper := []rune(element.String())[0]
-				s.AddRange(lower, upper)
+				/* a reversed range matches nothing; the set only takes begin <= end */
+				if lower <= upper {
+					s.AddRange(lower, upper)
+				}
 			case TypeAlternate:
 				consumes = true
 				properties := make([]struct {
@@ -753,17 +756,21 @@ func (t *Tree) Compile(file string, args []string, out io.Writer) (err error) {
 				for i := range properties {
 					properties[i].s = set.NewSet()
 				}
+				dispatch := true
 				for i, element := range n.Iterator2() {
 					var c bool
 					c, properties[i].s = optimizeAlternates(element)
 					/* a choice consumes only if every alternative does */
 					consumes = consumes && c
+					/* an alternative that can match without consuming, or that has
+					   no first character at all (a reversed range), has nothing to
+					   dispatch on */
+					dispatch = dispatch && c && properties[i].s.Len() > 0
 					s = s.Union(properties[i].s)
 				}
 
-				/* an alternative that can match without consuming has no
-				   first character to dispatch on: leave the choice ordered */
-				if firstPass || !consumes {
+				/* leave such a choice ordered */
+				if firstPass || !dispatch {
 					break
 				}
 
